@@ -68,8 +68,14 @@ def rk4_reference(pbc, calc, shot, xs, h):
         k = rho * sp * tc.drag_by_mach(sp / c)
         return (-k * va[0], g - k * va[1], -k * va[2])
 
-    be, az, mv = tc.barrel_elevation, tc.barrel_azimuth, tc.muzzle_velocity
-    r = (0.0, -tc.cant_cosine * tc.sight_height, -tc.cant_sine * tc.sight_height)
+    # launch state written from the property text, NOT read back from the calculator: barrel direction implied by look / zero /
+    # relative / cant angles, muzzle displaced by the canted sight height, speed = the ammunition's velocity for the powder temperature
+    look, cant = shot.look_angle >> U.Radian, shot.cant_angle >> U.Radian
+    hold = (shot.weapon.zero_elevation >> U.Radian) + (shot.relative_angle >> U.Radian)
+    be, az = look + math.cos(cant) * hold, math.sin(cant) * hold
+    mv = shot.ammo.get_velocity_for_temp(shot.atmo.powder_temp) >> U.FPS
+    sh = shot.weapon.sight_height >> U.Foot
+    r = (0.0, -math.cos(cant) * sh, -math.sin(cant) * sh)
     v = (mv * math.cos(be) * math.cos(az), mv * math.sin(be), mv * math.cos(be) * math.sin(az))
     t = 0.0
     out = {}
@@ -185,10 +191,10 @@ def search(chk, broken):
             rows = calc.fire(shot, U.Foot(R), U.Foot(R / 5)).trajectory
         except pbc.RangeError:
             continue
-        tc = calc._calc
-        tc._init_trajectory(shot)
-        be, mv, g, hh = tc.barrel_elevation, tc.muzzle_velocity, -32.17405, 0.25
-        y0 = -tc.sight_height
+        # launch state from the property text (un-canted here), not read back from the calculator
+        be = (shot.look_angle >> U.Radian) + (shot.weapon.zero_elevation >> U.Radian) + (shot.relative_angle >> U.Radian)
+        mv, g, hh = shot.ammo.get_velocity_for_temp(shot.atmo.powder_temp) >> U.FPS, -32.17405, 0.25
+        y0 = -(shot.weapon.sight_height >> U.Foot)
         evals += 1
         for r in rows:
             t = r.time
